@@ -53,6 +53,10 @@ def _pure(e, depth=0):
     return False
 
 
+def _pure_comp(c):
+    return _pure(c.elt) and all(not g.is_async and _pure(g.iter) and all(_pure(i) for i in g.ifs) for g in c.generators)
+
+
 def _free(e):
     """Names read by e that are not bound inside it (lambda parameters excluded)."""
     out = set()
@@ -108,9 +112,35 @@ class _RD:
     def uses(self, node, env, closure=False):
         if node is None:
             return
-        for n in ast.walk(node) if not isinstance(node, list) else [x for y in node for x in ast.walk(y)]:
+        roots = [node] if not isinstance(node, list) else list(node)
+
+        def scoped(n, bound):
+            # names bound by an enclosing lambda parameter or comprehension target are not uses of the function's locals
+            if isinstance(n, ast.Lambda):
+                b2 = bound | {a.arg for a in n.args.posonlyargs + n.args.args + n.args.kwonlyargs} | \
+                    ({n.args.vararg.arg} if n.args.vararg else set()) | ({n.args.kwarg.arg} if n.args.kwarg else set())
+                for d_ in n.args.defaults + [d for d in n.args.kw_defaults if d is not None]:
+                    scoped(d_, bound)
+                scoped(n.body, b2)
+                return
+            if isinstance(n, (ast.ListComp, ast.SetComp, ast.GeneratorExp, ast.DictComp)):
+                b2 = set(bound)
+                for g in n.generators:
+                    scoped(g.iter, b2)
+                    b2 |= {x.id for x in ast.walk(g.target) if isinstance(x, ast.Name)}
+                    for i_ in g.ifs:
+                        scoped(i_, b2)
+                for part in ([n.key, n.value] if isinstance(n, ast.DictComp) else [n.elt]):
+                    scoped(part, b2)
+                return
             if isinstance(n, ast.Name) and isinstance(n.ctx, ast.Load):
-                self.use_defs[id(n)] = env.get(n.id, frozenset([('global', n.id)]))
+                if n.id not in bound:
+                    self.use_defs[id(n)] = env.get(n.id, frozenset([('global', n.id)]))
+                return
+            for c in ast.iter_child_nodes(n):
+                scoped(c, bound)
+        for r_ in roots:
+            scoped(r_, set())
         # names used inside lambdas / nested defs / comprehensions are evaluated later or repeatedly
         for n in ast.walk(node) if not isinstance(node, list) else []:
             if isinstance(n, (ast.Lambda, ast.FunctionDef, ast.AsyncFunctionDef)):
@@ -271,9 +301,13 @@ def normalize_function(fn):
             parents[id(c)] = n
     # candidate definitions
     cands = {}
+    adjacent = set()
     for d, st in rd.defs.items():
         x = st.targets[0].id
         if _pure(st.value) and x not in _free(st.value) and not isinstance(st.value, (ast.List, ast.Dict, ast.Set)):
+            cands[d] = st
+        elif isinstance(st.value, (ast.ListComp, ast.SetComp, ast.GeneratorExp)) and x not in _free(st.value) and _pure_comp(st.value):
+            adjacent.add(d)      # a freshly built collection: only into a single use in the very next statement
             cands[d] = st
     if not cands:
         return 0
@@ -301,6 +335,16 @@ def normalize_function(fn):
         builds = any(isinstance(n, ast.Lambda) or (isinstance(n, ast.Call) and not (isinstance(n.func, ast.Name) and n.func.id in PURE_CALLS)) for n in ast.walk(st.value))
         if builds and len(uses[d]) != 1:
             continue
+        if d in adjacent:
+            if len(uses[d]) != 1 or rd.all_defs.get(st.targets[0].id, 0) != 1 or id(uses[d][0]) in rd.closure_uses:
+                continue
+            par_ = parents.get(id(st))
+            blk_ = next((b for b in (getattr(par_, f_, None) for f_ in ('body', 'orelse', 'finalbody')) if isinstance(b, list) and st in b), None)
+            us_ = _stmt_of(uses[d][0], parents)
+            if blk_ is None or blk_.index(st) + 1 >= len(blk_) or blk_[blk_.index(st) + 1] is not us_ or isinstance(us_, (ast.For, ast.While, ast.If, ast.With, ast.Try)):
+                continue
+            if sum(1 for n in ast.walk(fn) if isinstance(n, ast.Name) and n.id == st.targets[0].id) != 2:
+                continue
         x = st.targets[0].id
         free = _free(st.value)
         env_d = rd.env_at.get(id(st), {})
